@@ -57,7 +57,8 @@ Print Assumptions C28_guards_partial.
 
 Theorem C28_fixes_present : key_fields_skips_empty && det_start_guards_rate && det_rate_le_1_keeps && http_has_panic_catcher &&
   validation_rejects_negative_durations && rates_clamped && batch_ticker_clamped &&
-  (ema_throughput_interval_bounded && duration_bounds_keep_fraction) && rules_draw_guarded = true.
+  (ema_throughput_interval_bounded && duration_bounds_keep_fraction) && rules_draw_guarded &&
+  queue_sizes_validated_nonnegative = true.
 Proof. exact fixes_present. Qed.
 Print Assumptions C28_fixes_present.
 
@@ -116,6 +117,17 @@ Print Assumptions C28_rules_draw_never_panics.
 Theorem C28_rules_draw_weak_guard_refuted : rules_draw false false (-1) = None.
 Proof. exact rules_draw_weak_guard_refuted. Qed.
 Print Assumptions C28_rules_draw_weak_guard_refuted.
+
+(* Collection.PeerQueueSize / IncomingQueueSize: a negative size passed validation and make(chan, negative) panicked
+   at startup; the metadata now demands >= 0 (fact regenerated from configMeta.yaml). *)
+Theorem C28_worker_queue_never_panics : forall size workers,
+  1 <= workers -> queue_size_accepted queue_sizes_validated_nonnegative size = true -> worker_queue size workers <> None.
+Proof. exact worker_queue_gen_safe. Qed.
+Print Assumptions C28_worker_queue_never_panics.
+
+Theorem C28_worker_queue_refuted_before_fix : queue_size_accepted false (-1) = true /\ worker_queue (-1) 1 = None.
+Proof. exact worker_queue_refuted_before_fix. Qed.
+Print Assumptions C28_worker_queue_refuted_before_fix.
 
 (* Non-vacuity: the models compute the documented results on ordinary inputs *)
 Example C28_nonvacuous :
